@@ -180,8 +180,8 @@ I1_RESET = {
     "threads": "rt::thread::Set::clear",
     "lazy_statics": "rt::lazy_static::Set::reset",
     "objects": "rt::object::Store::<T>::clear",
-    "raw_allocations": "std::collections::HashMap::<K, V, S, A>::clear",
-    "arc_objs": "std::collections::HashMap::<K, V, S, A>::clear",
+    "raw_allocations": "<collection>::clear",
+    "arc_objs": "<collection>::clear",
 }
 I1_CONFIG = {"max_threads", "max_history", "location", "log"}
 
@@ -229,7 +229,8 @@ def I1(ctx):
             ctx.bad("I1", "Execution." + f, "field `%s` of Execution is neither a listed configuration field nor reset by Execution::step: state "
                     "created in one iteration is visible in the next" % f, site_str(prog, fk, b0), detail="unlisted")
             continue
-        hit = [bb for (bb, t, k) in calls if k == reset and is_field(arg_expr(body, t, 0), EXEC, f)]
+        hit = [bb for (bb, t, k) in calls if (k == reset or (reset == "<collection>::clear" and is_std_collection_call(k, "clear")))
+               and is_field(arg_expr(body, t, 0), EXEC, f)]
         dom = body.dominators()
         if hit and e is not None and is_field(e, EXEC, f) and any(h in dom[b0] for h in hit):
             ctx.ok("I1", "Execution." + f, "%s before the next iteration" % reset.split("::")[-1], [site_str(prog, fk, hit[0])])
@@ -285,7 +286,7 @@ def I1(ctx):
     if lfn is not None:
         ws = [w for w in prog.writers().get(("rt::lazy_static::Set", "statics"), []) if w["fn"] == lk and w["kind"] == "assign"]
         ps = panic_sites(prog, lk, "lazy_static was not dropped")
-        fresh = ws and "HashMap" in canon(rv_expr(prog, ws[0])) and "::new" in canon(rv_expr(prog, ws[0]))
+        fresh = ws and "std::collections::" in canon(rv_expr(prog, ws[0])) and "::new" in canon(rv_expr(prog, ws[0]))
         if fresh and ps:
             ctx.ok("I1", lk, "asserts the previous statics were dropped; installs an empty map", [site_str(prog, lk, ws[0]["bb"])])
         else:
@@ -359,7 +360,7 @@ def I3(ctx):
             for s in blk["stmts"]:
                 if s["k"] == "=" and s["rv"]["k"] == "agg" and s["rv"].get("adt") == EXEC:
                     ops = dict(zip(s["rv"]["field_names"], s["rv"]["ops"]))
-                    want = {"raw_allocations": "HashMap::<K, V>::new", "arc_objs": "HashMap::<K, V>::new", "objects": "with_capacity",
+                    want = {"raw_allocations": "::new(", "arc_objs": "::new(", "objects": "with_capacity",
                             "lazy_statics": "lazy_static::Set::new", "threads": "thread::Set::new", "path": "Path::new"}
                     for f, frag in want.items():
                         txt = canon(body.expr_of_operand(ops[f])) if f in ops else ""
